@@ -693,14 +693,14 @@ S('c18-int-width-wrong-attr', 'C18', F,
         return fragments
 
 
-@defer_operations(allowed_categories=['sequence'])''',
+def _regexp_as_a_group(regexp):''',
   '''                (".{%i}" % len(self.struct_code or 'x')).encode('ascii'), is_literal=False
             )
 
         return fragments
 
 
-@defer_operations(allowed_categories=['sequence'])''', 'R12-width-agreement')
+def _regexp_as_a_group(regexp):''', 'R12-width-agreement')
 S('c18-bits-class-bound-unescaped', 'C18', F,
   '''                        lower_literal = re.escape(lower_char)''',
   '''                        lower_literal = lower_char''', 'R12-escape-discipline')
@@ -731,14 +731,14 @@ B('c18-benign-fstring-width', 'C18', F,
         return fragments
 
 
-@defer_operations(allowed_categories=['sequence'])''',
+def _regexp_as_a_group(regexp):''',
   '''            width = ".{%d}" % self.byte_count
             fragments.append(width.encode('ascii'), is_literal=False)
 
         return fragments
 
 
-@defer_operations(allowed_categories=['sequence'])''')
+def _regexp_as_a_group(regexp):''')
 
 # =========================================================================== C06
 S('c06-rfind', 'C06', F, '''        count = search_buffer.find(until_marker)
